@@ -297,7 +297,7 @@ func main() {
 			budget := 50 * time.Second
 			dev, splits := 2, 3
 			if tier == "thorough" {
-				budget = 12 * time.Minute
+				budget = 25 * time.Minute
 				dev, splits = 3, 4
 			}
 			return []mc.Family{deliveryFamily(entries(), dev, budget), splitFamily(splits, budget)}
